@@ -100,7 +100,11 @@ pub fn run(case: &Value) -> Value {
             let mut bld = LaunchBuilder::new();
             // odd cases go through the bulk spellings of the builders (processes / labels / slices / args)
             let bulk = case["id"].as_u64().unwrap_or(0) % 2 == 1;
-            for c in case["calls"].as_array().unwrap() {
+            for (ci, c) in case["calls"].as_array().unwrap().iter().enumerate() {
+                // the builder is not consumed by build(): a Launch taken in between (and thrown away) changes nothing
+                if case["snapshots"].as_array().is_some_and(|s| s.iter().any(|x| x.as_u64() == Some(ci as u64))) {
+                    let _ = bld.build();
+                }
                 match c["c"].as_str().unwrap() {
                     "process" => {
                         let cmd: Vec<String> = c["cmd"].as_array().unwrap().iter().map(string_of).collect();
